@@ -542,9 +542,30 @@ func (c *candidateBase) transportAddressEqual(other Candidate) bool {
 	}
 
 	return c.NetworkType() == other.NetworkType() &&
-		c.Address() == other.Address() &&
+		sameAddressLiteral(c.Address(), other.Address()) &&
 		c.Port() == other.Port() &&
 		c.TCPType() == other.TCPType()
+}
+
+// sameAddressLiteral reports whether two candidate addresses name the same host: identical
+// strings (mDNS names included), or IP literals of one address in different forms
+// (IPv4-mapped vs plain IPv4, expanded vs compressed IPv6).
+func sameAddressLiteral(a, b string) bool {
+	if a == b {
+		return true
+	}
+
+	ipA, err := netip.ParseAddr(a)
+	if err != nil {
+		return false
+	}
+
+	ipB, err := netip.ParseAddr(b)
+	if err != nil {
+		return false
+	}
+
+	return canonicalAddr(ipA) == canonicalAddr(ipB)
 }
 
 // Equal is used to compare two candidateBases.
